@@ -624,7 +624,9 @@ impl ModuleManager {
 
             let from_module = self.get_module(&import.from_module)?;
 
-            for rule in from_module.get_rules() {
+            // Candidates are all rules known to the manager, not only the rules owned by
+            // `from_module`: a re-exported rule is owned by another module (see `exports_rule`)
+            for rule in self.modules.values().flat_map(|m| m.get_rules()) {
                 if from_module.exports_rule(rule) && pattern_matches(&import.pattern, rule) {
                     visible.insert(rule.clone());
                 }
